@@ -21,7 +21,7 @@ TECHNIQUE = ("property-based testing (Hypothesis) with recording privacy plug-in
              "hashes and engines inside one process")
 RULE = ("case = 1..3 sessions in one process, each = authPriv user (MD5 | SHA-1, auth and privacy passwords 1..64 octets, plug-in "
         "verifstream | verifblock) x engine id x optional context engine id / name x operation {get, multiget, getnext, set, "
-        "multiset, walk, bulkwalk} with marker strings in SET values and context name; sessions may reuse user name and "
+        "multiset, walk, bulkwalk, a SET refused with error-status 17 inside an encrypted response} with marker strings in SET values and context name; sessions may reuse user name and "
         "engine with a rotated privacy password or the other hash; plus the boundary of an EMPTY privacy password (nothing may leave in clear); non-trivial = a SET carrying a marker, a payload of >= 2 "
         "keystream blocks, or >= 2 sessions sharing user name and engine; distinct = SHA-1 of canonical JSON case")
 ASSUMPTIONS = [
@@ -72,18 +72,26 @@ def run_session(s, classes):
             r = await client.multiset({O(SCALAR): vworld.make_value(vber.T_OCTETS, secret),
                                        O(COL + (1,)): vworld.make_value(vber.T_OPAQUE, secret[::-1])})
             return sorted((vworld.oid_tuple(k), vworld.observe(v)) for k, v in r.items())
+        if op == "set_refused":
+            return vworld.observe(await client.set(O(SCALAR), vworld.make_value(vber.T_OCTETS, secret)))
         if op == "walk":
             return [vworld.observe_vb(vb) async for vb in client.walk(O(COL))]
         if op == "bulkwalk":
             return [vworld.observe_vb(vb) async for vb in client.bulkwalk([O(COL)], bulk_size=2)]
         raise ValueError(op)
 
+    if op == "set_refused":
+        # the agent refuses the SET with error-status notWritable(17) -- inside an ENCRYPTED response
+        def refuse(a, req):
+            pdu = req["pdu"]
+            return a.v3_response(req, a.users[req["user"]], 17, 1, [(o, vber.T_NULL, b"") for o, _, _ in pdu["vbs"]])
+        agent.respond_hook = refuse
     cells = [(COL + (r,), "OctetString", DB[COL + (r,)][1]) for r in (1, 2, 3)]
     want = {"get": ("OctetString", b"public-value"),
             "multiget": [("OctetString", b"public-value"), ("OctetString", DB[COL + (2,)][1])],
             "getnext": cells[0], "set": ("OctetString", secret),
             "multiset": sorted([(SCALAR, ("OctetString", secret)), (COL + (1,), ("Opaque", secret[::-1]))]),
-            "walk": cells, "bulkwalk": cells}[op]
+            "walk": cells, "bulkwalk": cells, "set_refused": "NotWritable"}[op]
     exc = res = None
     with vclock.fixed(1_700_000_000):
         try:
@@ -147,6 +155,12 @@ def run_session(s, classes):
             return "%s: contextName %r inside the ciphertext, configured %r" % (label, sc["ctx_name"], ctx_name), None
     if agent.stats["decryptError"] or agent.stats["wrongDigest"]:
         return "%s: usmStats moved: %r" % (label, agent.stats), None
+    if op == "set_refused":
+        # the encrypted error response must round-trip: the documented exception, not a decryption failure
+        if type(exc).__name__ != "NotWritable" or getattr(exc, "error_status", None) != 17:
+            return "%s: an encrypted response carrying error-status 17 surfaced as %r" % (label, exc if exc else res), None
+        exc = None
+        res = want
     if exc is not None:
         if vworld.f10b_excusable(agent, exc):
             return "%s: AuthenticationError on an authentic response with a 127-octet TLV" % label, "reencoded_len_127"
@@ -213,7 +227,7 @@ def run_case(case) -> Result:
     nontrivial = "shared_user_engine" in classes
     for s in sessions:
         classes.add(s["priv"])
-        if s["op"] in ("set", "multiset"):
+        if s["op"] in ("set", "multiset", "set_refused"):
             classes.add("marker_set")
             nontrivial = True
         if s["op"] in ("set", "multiset", "walk", "bulkwalk", "multiget") or len(s.get("ctx_name", "")) > 60:
@@ -227,7 +241,7 @@ def run_case(case) -> Result:
 
 
 ENGINES = [b"\x80\x00\x1f\x88\x80verif-agent", b"\x80\x00\x00\x09\x05" + b"\x00" * 12 + b"\x2a", b"12345", b"\xff" * 32]
-OPS = ["get", "multiget", "getnext", "set", "set", "multiset", "walk", "bulkwalk"]
+OPS = ["get", "multiget", "getnext", "set", "set", "multiset", "walk", "bulkwalk", "set_refused"]
 
 
 @st.composite
